@@ -11,6 +11,14 @@
    unalignable line that takes the 0.5 fallback of get_confidences), engines with different character tables; the real
    merge_ocr_results.merge_layouts is called (twice), also on [p, p] and [p, deepcopy(p)].
 3. Conformance: TLC judges every execution in EngineMerge_Trace with the operator Accepts of the design module.
+4. History: incremental merging with ONE long-lived result layout (design: Chain = TRUE, invariants ChainCorrect / ChainStepAccepted /
+   ChainEqualsOneShot; seeded in-model defect stale_conf).  The same layout objects go through a whole plan of calls (result + next
+   engine, an engine handed over again, the result with itself, the whole tuple, the result in second position, a single-layout
+   tuple), some of them after a call on a tuple outside the scope that fails half-way and after the caller scored the result's lines
+   itself.  Every call is judged by TLC (AcceptsOn) against what its slots held when it was made - measured on FRESH line objects
+   with the same transcription / logits / character table - and the final result against the original engines.
+5. Scale: character tables of 300 .. 70 000 symbols with the transcriptions' symbols stored behind position 255 / 1 023 / 32 767 /
+   65 535, lines of up to 1 100 characters; same clauses plus the order of the exact means the logits were built for (clause 6).
 """
 import contextlib
 import copy
@@ -34,7 +42,37 @@ LETTERS = {1: "ab", 2: "cd", 3: "ef", 4: "gh"}
 # "agreeing engines": every engine transcribes the same text (the common case in practice) over its own, differently ordered table
 TABLES_AGREE = {1: ["a", "b", "z", "~"], 2: ["z", "b", "a", "x", "~"], 3: ["b", "a", "z", "~"], 4: ["a", "z", "b", "~"]}
 LETTERS_AGREE = {1: "ab", 2: "ab", 3: "ab", 4: "ab"}
-_AGREE = {"on": False}
+# engines trained on the same alphabet size (tables of equal size, different letters / order): a line's logits have the same shape in
+# every engine, so replacing a line's result in place keeps the shape
+TABLES_EQUAL = {1: ["a", "b", "z", "~"], 2: ["z", "d", "c", "~"], 3: ["e", "z", "f", "~"], 4: ["h", "g", "z", "~"]}
+_TABSET = {"name": "default"}          # "default" | "agree" | "equal" | ("scale", number of symbols)
+_SCALE_TABLES = {}
+# (symbols in every engine's table, characters per line; 0 = the ordinary realisations of the palette, CTC-style ones included)
+SCALE_SHAPES = ((300, 1100), (1100, 300), (33000, 2), (70000, 1), (300, 0), (70000, 0), (1100, 1), (33000, 0))
+
+
+def _tables():
+    """(character tables, letters) per engine for the current case"""
+    name = _TABSET["name"]
+    if name == "agree":
+        return TABLES_AGREE, LETTERS_AGREE
+    if name == "equal":
+        return TABLES_EQUAL, LETTERS
+    if isinstance(name, tuple):
+        n = name[1]
+        if n not in _SCALE_TABLES:
+            # n symbols (the last one is the blank); every engine has its own order of the same filler alphabet and keeps the symbols its
+            # transcriptions use (and the distractor "z") at the END of the table: behind position 255 / 1 023 / 32 767 / 65 535
+            tabs = {}
+            for e in TABLES:
+                fill = [chr(0x20000 + (i + 977 * e) % (n - 4)) for i in range(n - 4)]
+                a, b = LETTERS[e]
+                tail = [[a, "z", b], [b, a, "z"], ["z", b, a], [a, b, "z"]][e - 1]
+                tabs[e] = fill[:n - 4 - 3 * e] + tail + fill[n - 4 - 3 * e:] + ["~"]
+                assert len(tabs[e]) == n and len(set(tabs[e])) == n
+            _SCALE_TABLES[n] = tabs
+        return _SCALE_TABLES[n], LETTERS
+    return TABLES, LETTERS
 # realisations of a level (mean confidence in 16ths): (style, per-character (label weight, distractor weight) over D)
 PALETTE = {
     0: [("ctc", [(2, 5)]), ("ctc", [(1, 4), (3, 3)])],
@@ -46,7 +84,8 @@ NONE = -1
 CLAUSES = {1: "merge_layouts raised", 2: "ids / geometry / line order of a layout changed",
            3: "the confidence the script computes for an engine's line is not the mean of the library's character confidences of its transcription",
            4: "merging the merged result again changed it",
-           5: "the mean character confidence differs from the exact value the logits were built to realise"}
+           5: "the mean character confidence differs from the exact value the logits were built to realise",
+           6: "large character tables / long lines: the engine whose result was kept is not one whose built-in mean confidence is highest"}
 
 
 def load_merge():
@@ -63,14 +102,22 @@ _CFG = {}
 
 
 def configs(tier):
-    q = [{"NEngines": 3, "NLines": 1, "levels": [NONE, 0, 4, 8, 12], "cap": None},
-         {"NEngines": 2, "NLines": 2, "levels": [NONE, 0, 4, 8], "cap": None},
+    # "scale": n = a seeded sample of n of the assignments is also realised over large character tables / long lines (no extra TLC run: the
+    # design module does not depend on the size of a table); "chains": after the config itself, bounds checked and driven as incremental
+    # merging (Chain = TRUE)
+    sc = 1 if tier == "quick" else 4
+    q = [{"NEngines": 3, "NLines": 1, "levels": [NONE, 0, 4, 8, 12], "cap": None, "scale": 40 * sc,
+          "chains": [{"NEngines": 3, "NLines": 1, "levels": [NONE, 0, 4, 8, 12], "chain": True, "plans": [0, 1, 2]}]},
+         {"NEngines": 2, "NLines": 2, "levels": [NONE, 0, 4, 8], "cap": None, "scale": 48 * sc},
          {"NEngines": 4, "NLines": 1, "levels": [NONE, 0, 4, 8], "cap": None},
          # a single engine's result "merged": the tuple of 1 layout of the scope sentence
-         {"NEngines": 1, "NLines": 2, "levels": [NONE, 0, 4, 8, 12], "cap": None}]
+         {"NEngines": 1, "NLines": 2, "levels": [NONE, 0, 4, 8, 12], "cap": None, "scale": 16 * sc}]
     if tier == "quick":
         return q
-    return q + [{"NEngines": 3, "NLines": 2, "levels": [NONE, 0, 4, 8], "cap": None},
+    return q + [{"NEngines": 3, "NLines": 2, "levels": [NONE, 0, 4, 8], "cap": None,
+                 "chains": [{"NEngines": 3, "NLines": 2, "levels": [NONE, 4, 8], "chain": True, "plans": "one"},
+                            {"NEngines": 4, "NLines": 1, "levels": [NONE, 0, 4, 8], "chain": True, "plans": [0, 1, 2]},
+                            {"NEngines": 2, "NLines": 2, "levels": [NONE, 0, 4, 8, 12], "chain": True, "plans": [0, 1, 2]}]},
                 {"NEngines": 4, "NLines": 1, "levels": [NONE, 0, 4, 8, 12], "cap": None},
                 {"NEngines": 4, "NLines": 2, "levels": [NONE, 0, 4, 8], "cap": 8000},
                 {"NEngines": 1, "NLines": 3, "levels": [NONE, 0, 4, 8, 12], "cap": None}]
@@ -79,16 +126,22 @@ def configs(tier):
 def consts_of(c, mut="none", lens=(1,)):
     # scale of the design module: 0 none, 2 zero, 4.. positive levels
     confs = {0 if v == NONE else 2 + v // 2 for v in c["levels"]}
-    return {"NEngines": c["NEngines"], "NLines": c["NLines"], "Confs": confs, "Lens": set(lens), "Mut": mut}
+    return {"NEngines": c["NEngines"], "NLines": c["NLines"], "Confs": confs, "Lens": set(lens), "Mut": mut, "Chain": bool(c.get("chain"))}
 
 
 def _lab(c):
-    return "NEngines=%d NLines=%d levels=%s" % (c["NEngines"], c["NLines"], c["levels"])
+    return "%sNEngines=%d NLines=%d levels=%s" % ("chain " if c.get("chain") else "", c["NEngines"], c["NLines"], c["levels"])
 
 
-def build_line(lid, engine, level, variant, empty_none):
+def _frac(num, den):
+    g = int(np.gcd(num, den)) or 1
+    return num // g, den // g
+
+
+def build_line(lid, engine, level, variant, empty_none, tlen=0):
+    """tlen > 0 (scale cases): a positive level is realised with one row per character over a transcription of tlen characters"""
     from pero_ocr.core.layout import TextLine
-    TABLES, LETTERS = (TABLES_AGREE, LETTERS_AGREE) if _AGREE["on"] else (globals()["TABLES"], globals()["LETTERS"])
+    TABLES, LETTERS = _tables()
     chars = TABLES[engine]
     nc = len(chars)
     blank = nc - 1
@@ -107,8 +160,12 @@ def build_line(lid, engine, level, variant, empty_none):
     if level == NONE:
         line.transcription = None if empty_none else ""
         line.logits = sp.csc_matrix(np.log(np.full((2, nc), 1.0 / nc)) + 1.0)
-        return line, 0, 1
+        return line, 0, 1, "none"
     style, spec = PALETTE[level][variant % len(PALETTE[level])]
+    if tlen and level > 0:
+        # weights level/2 on every row, or alternately one more / one less (same sum); the exact mean is level/16 whatever tlen is
+        a = level // 2
+        style, spec = "tr", [((a + (1 if i % 2 == 0 else -1) if variant % 2 and i < tlen - tlen % 2 else a), 0) for i in range(tlen)]
     if style == "fallback":
         # two equal labels on one frame: not alignable -> get_confidences falls back to 0.5 per character
         line.transcription = LETTERS[engine][0] * 2
@@ -118,13 +175,14 @@ def build_line(lid, engine, level, variant, empty_none):
         rows = w
         num, den = 0, 0          # the value of the fallback is not part of the statement: no exact expectation (den = 0)
     elif style == "tr":
-        text = LETTERS[engine][:len(spec)]
+        text = "".join(LETTERS[engine][i % 2] for i in range(len(spec)))
         line.transcription = text
         rows = np.zeros((len(spec), nc))
+        cols = {ch: chars.index(ch) for ch in set(text)}
         for i, (a, _) in enumerate(spec):
-            rows[i, chars.index(text[i])] = a
+            rows[i, cols[text[i]]] = a
             rows[i, blank] = D - a
-        num, den = sum(a for a, _ in spec), D * len(spec)
+        num, den = _frac(sum(a for a, _ in spec), D * len(spec))
     else:
         text = LETTERS[engine][:len(spec)]
         line.transcription = text
@@ -141,22 +199,22 @@ def build_line(lid, engine, level, variant, empty_none):
         lg = np.log(rows / D) + 1.5          # unnormalised logits; zero weight = absent entry of the sparse matrix (floor -80)
     lg[rows == 0] = 0.0
     line.logits = sp.csc_matrix(lg)
-    return line, num, den
+    return line, num, den, style
 
 
-def build_layout(engine, levels, variants, empty_none):
+def build_layout(engine, levels, variants, empty_none, tlen=0):
     from pero_ocr.core.layout import PageLayout, RegionLayout
     p = PageLayout(id="page", page_size=(100, 100))
     r = RegionLayout("r1", np.array([[0, 0], [60, 0], [60, 90], [0, 90]]))
     p.regions.append(r)
     meta = []
     for k, lv in enumerate(levels):
-        line, num, den = build_line("l%d" % (k + 1), engine, lv, variants[k], empty_none)
+        line, num, den, style = build_line("l%d" % (k + 1), engine, lv, variants[k], empty_none, tlen)
         if k >= 1 and len(p.regions) == 1:          # the second and later lines live in a second region
             r = RegionLayout("r2", np.array([[0, 10 * k + 12], [60, 10 * k + 12], [60, 99], [0, 99]]))
             p.regions.append(r)
         r.lines.append(line)
-        meta.append((num, den))
+        meta.append((num, den, style))
     return p, meta
 
 
@@ -175,16 +233,90 @@ def _scale(means):
     return [0 if m is None else (2 if not m > 0 else 4 + 2 * pos.index(m)) for m in means]
 
 
+def _observe(line):
+    """what the script's own get_confidences makes of a line (mean; deviation from the library's per-character confidences for the same
+    transcription) + the content of the line"""
+    sink = io.StringIO()
+    with contextlib.redirect_stdout(sink):
+        cf = _MG.get_confidences(line)
+    mean = float(cf.mean()) if cf.size > 0 else None
+    refdev = 0
+    if mean is not None:
+        try:        # the library's own per-character confidences for the same transcription (C16's subject)
+            pos = {}
+            for ch in line.transcription:
+                if ch not in pos:
+                    pos[ch] = list(line.characters).index(ch)
+            idx = np.asarray([pos[ch] for ch in line.transcription])
+            refdev = int(min(2e9, abs(float(np.mean(_GLC(line, idx))) - mean) * 1e12))
+        except ValueError:
+            refdev = 0          # not alignable: the script's fallback constant is not part of the statement
+    return {"mean": mean, "refdev": refdev, "text": line.transcription, "logits": line.logits.copy(), "chars": list(line.characters),
+            "own_conf": line.transcription_confidence}
+
+
+def _fresh(line):
+    """a FRESH line object holding what `line` holds now.  The mean character confidence of an engine's line is a function of its
+    transcription, logits and character table; in a chain the layouts are long-lived objects with a history, and measuring on a fresh
+    object keeps the measurement out of that history (and the history out of the measurement)."""
+    from pero_ocr.core.layout import TextLine
+    p = TextLine(id=line.id, baseline=np.array(line.baseline), polygon=np.array(line.polygon), heights=list(line.heights),
+                 characters=list(line.characters))
+    p.transcription = line.transcription
+    p.logits = line.logits.copy()
+    p.transcription_confidence = line.transcription_confidence
+    return p
+
+
+def _recorded(tc, means, untouched):
+    """the recorded confidence on the scale of the trace: the scale value of the slot whose mean it equals, 1 = still the value the
+    line carried before the call, 3 = anything else"""
+    sc = _scale(means)
+    for e, m in enumerate(means):
+        if m is not None and tc == m:
+            return sc[e]
+    return 1 if tc == untouched else 3
+
+
+def _line_record(obs, metas, m, untouched):
+    """obs[e] = observation of slot e's line before the call, m = the merged line after it"""
+    n = len(obs)
+    means = [o["mean"] for o in obs]
+    r = _recorded(m.transcription_confidence, means, untouched)
+    return {"conf": _scale(means),
+            "obs": [0 if v is None else int(round(v * 1e6)) for v in means],
+            "num": [mt[0] for mt in metas], "den": [mt[1] for mt in metas],
+            "pure": all(mt[2] in ("tr", "none") for mt in metas),
+            "refdev": [o["refdev"] for o in obs],
+            "tx": [e + 1 for e in range(n) if obs[e]["text"] == m.transcription],
+            "lg": [e + 1 for e in range(n) if same_logits(obs[e]["logits"], m.logits)],
+            "ch": [e + 1 for e in range(n) if obs[e]["chars"] == list(m.characters)],
+            "rec": r}
+
+
+def _blank_lines(ne, nl):
+    return [{"conf": [0] * ne, "obs": [0] * ne, "num": [0] * ne, "den": [1] * ne, "pure": False, "refdev": [0] * ne, "tx": [], "lg": [], "ch": [],
+             "rec": 3} for _ in range(nl)]
+
+
 def _merge_case(case):
+    if case["kind"] == "chain":
+        return _chain_case(case)
     kind, assign, vseed = case["kind"], case["assign"], case["vseed"]
     ne, nl = _CFG["NEngines"], _CFG["NLines"]
-    rec = {"outcome": "ok", "kind": kind, "assign": [list(a) for a in assign], "vseed": vseed, "frame_ok": True, "idem": True, "lines": []}
+    rec = {"outcome": "ok", "kind": kind, "assign": [list(a) for a in assign], "vseed": vseed, "frame_ok": True, "idem": True, "lines": [],
+           "steps": []}
     try:
         variants = [(vseed // (3 ** k)) % 12 for k in range(nl)]
         empty_none = bool(vseed % 2)
-        _AGREE["on"] = (kind == "engines" and vseed % 3 == 0)
-        if kind == "engines":
-            built = [build_layout(e + 1, assign[e], variants, empty_none) for e in range(ne)]
+        _TABSET["name"] = "agree" if (kind == "engines" and vseed % 3 == 0) else "default"
+        tlen = 0
+        if kind == "scale":
+            nsym, tlen = SCALE_SHAPES[vseed % len(SCALE_SHAPES)]
+            _TABSET["name"] = ("scale", nsym)
+            rec["nsym"], rec["tlen"] = nsym, tlen
+        if kind in ("engines", "scale"):
+            built = [build_layout(e + 1, assign[e], variants, empty_none, tlen) for e in range(ne)]
             layouts = [b[0] for b in built]
             metas = [b[1] for b in built]
         else:                       # self-merge: the same result twice (same object / an equal copy); ne == 2
@@ -193,50 +325,15 @@ def _merge_case(case):
             metas = [meta, meta]
         sink = io.StringIO()
         # observations before merging, with the script's own get_confidences
-        orig = []
-        for e, p in enumerate(layouts):
-            per = []
-            for k, line in enumerate(p.lines_iterator()):
-                with contextlib.redirect_stdout(sink):
-                    cf = _MG.get_confidences(line)
-                mean = float(cf.mean()) if cf.size > 0 else None
-                refdev = 0
-                if mean is not None:
-                    try:        # the library's own per-character confidences for the same transcription (C16's subject)
-                        idx = np.asarray([list(line.characters).index(ch) for ch in line.transcription])
-                        refdev = int(min(2e9, abs(float(np.mean(_GLC(line, idx))) - mean) * 1e12))
-                    except ValueError:
-                        refdev = 0          # not alignable: the script's fallback constant is not part of the statement
-                per.append({"mean": mean, "refdev": refdev, "text": line.transcription, "logits": line.logits.copy(), "chars": list(line.characters),
-                            "own_conf": line.transcription_confidence})
-            orig.append(per)
-        frames = [snapshot_frame(copy.deepcopy(p)) for p in layouts]
+        orig = [[_observe(line) for line in p.lines_iterator()] for p in layouts]
+        frames = [snapshot_frame(p) for p in layouts]          # plain lists / numbers: a copy of its own
         with contextlib.redirect_stdout(sink):
             _MG.merge_layouts(layouts)
         rec["frame_ok"] = all(snapshot_frame(p) == f for p, f in zip(layouts, frames))
         merged = list(layouts[0].lines_iterator())
         after1 = [(m.transcription, m.logits.copy(), list(m.characters), m.transcription_confidence) for m in merged]
         for k, m in enumerate(merged):
-            means = [orig[e][k]["mean"] for e in range(ne)]
-            tc = m.transcription_confidence
-            if tc == orig[0][k]["own_conf"]:
-                r = 1
-            else:
-                r = 3
-                sc = _scale(means)
-                for e in range(ne):
-                    if means[e] is not None and tc == means[e]:
-                        r = sc[e]
-                        break
-            rec["lines"].append({
-                "conf": _scale(means),
-                "obs": [0 if v is None else int(round(v * 1e6)) for v in means],
-                "num": [metas[e][k][0] for e in range(ne)], "den": [metas[e][k][1] for e in range(ne)],
-                "refdev": [orig[e][k]["refdev"] for e in range(ne)],
-                "tx": [e + 1 for e in range(ne) if orig[e][k]["text"] == m.transcription],
-                "lg": [e + 1 for e in range(ne) if same_logits(orig[e][k]["logits"], m.logits)],
-                "ch": [e + 1 for e in range(ne) if orig[e][k]["chars"] == list(m.characters)],
-                "rec": r})
+            rec["lines"].append(_line_record([orig[e][k] for e in range(ne)], [metas[e][k] for e in range(ne)], m, orig[0][k]["own_conf"]))
         with contextlib.redirect_stdout(sink):
             _MG.merge_layouts(layouts)
         merged2 = list(layouts[0].lines_iterator())
@@ -247,9 +344,85 @@ def _merge_case(case):
         if isinstance(ex, KeyboardInterrupt):
             raise
         rec["outcome"] = "exception:" + type(ex).__name__
-        rec["lines"] = [{"conf": [0] * ne, "obs": [0] * ne, "num": [0] * ne, "den": [1] * ne, "refdev": [0] * ne, "tx": [], "lg": [], "ch": [],
-                         "rec": 3}
-                        for _ in range(nl)]
+        rec["lines"] = _blank_lines(ne, nl)
+    return rec
+
+
+# ------------------------------------------------------------------------------------------------ history: one long-lived result layout
+def chain_plan(ne, which):
+    """the calls of one chain: a tuple = merge_layouts on these layout objects (1 = the long-lived result = the first engine's layout,
+    j = engine j's layout), "fail" = a call on a tuple outside the scope that fails half-way, "score" = the caller scores the lines of
+    the result itself (as an export would).  New engines always come in increasing order, so 'first on ties' is the engine order."""
+    step = [(1, j) for j in range(2, ne + 1)]
+    if which == 0:          # one engine after the other, an engine handed over a second time, the result with itself
+        return step + [(1, 2), (1, 1)]
+    if which == 1:          # a failing call before the first and between the calls, scoring in between, finally the whole tuple
+        return ["fail", step[0], "score", "fail"] + step[1:] + [tuple(range(1, ne + 1))]
+    # the result in second position first (engine 2's layout object becomes a result, too), then incrementally; a single-layout tuple
+    return [(2, 1), (1, 2), "score"] + step[1:] + [(1,)]
+
+
+def _failing_call(layouts, assign, variants, empty_none):
+    """merge_layouts on a tuple OUTSIDE the scope - the last line of the first layout has another id - with the long-lived result in second
+    position: the script gives up half-way (exit(-1)) after it has worked on the lines before.  Whatever it does there, the first
+    layout of that call is a throw-away object and nothing it did may matter for the calls that follow."""
+    bad, _ = build_layout(2, assign[1], variants, empty_none)
+    list(bad.lines_iterator())[-1].id += "-x"
+    try:
+        with contextlib.redirect_stdout(io.StringIO()):
+            _MG.merge_layouts([bad, layouts[0]])
+    except BaseException as ex:
+        if isinstance(ex, KeyboardInterrupt):
+            raise
+
+
+def _chain_case(case):
+    assign, vseed, plan = case["assign"], case["vseed"], case["plan"]
+    ne, nl = _CFG["NEngines"], _CFG["NLines"]
+    rec = {"outcome": "ok", "kind": "chain", "assign": [list(a) for a in assign], "vseed": vseed, "plan": plan, "frame_ok": True, "idem": True,
+           "lines": [], "steps": []}
+    try:
+        variants = [(vseed // (3 ** k)) % 12 for k in range(nl)]
+        empty_none = bool(vseed % 2)
+        _TABSET["name"] = ("equal", "default", "agree", "equal")[vseed % 4]
+        built = [build_layout(e + 1, assign[e], variants, empty_none) for e in range(ne)]
+        layouts = [b[0] for b in built]
+        metas = [b[1] for b in built]
+        pristine = [[_observe(_fresh(line)) for line in p.lines_iterator()] for p in layouts]
+        frames = [snapshot_frame(p) for p in layouts]          # plain lists / numbers: a copy of its own
+        sink = io.StringIO()
+        for call in chain_plan(ne, plan):
+            if call == "fail":
+                _failing_call(layouts, assign, variants, empty_none)
+                continue
+            if call == "score":
+                for line in layouts[0].lines_iterator():
+                    with contextlib.redirect_stdout(sink):
+                        _MG.get_confidences(line)
+                continue
+            slots = [layouts[j - 1] for j in call]
+            pre = [[_observe(_fresh(line)) for line in p.lines_iterator()] for p in slots]
+            step = {"slots": list(call), "outcome": "ok", "lines": []}
+            try:
+                with contextlib.redirect_stdout(sink):
+                    _MG.merge_layouts(slots)
+                for k, m in enumerate(slots[0].lines_iterator()):
+                    ln = _line_record([pre[s][k] for s in range(len(slots))], [(0, 0, "-")] * len(slots), m, pre[0][k]["own_conf"])
+                    step["lines"].append({f: ln[f] for f in ("conf", "refdev", "tx", "lg", "ch", "rec")})
+            except BaseException as ex:
+                if isinstance(ex, KeyboardInterrupt):
+                    raise
+                step["outcome"] = rec["outcome"] = "exception:" + type(ex).__name__
+                step["lines"] = [{f: ln[f] for f in ("conf", "refdev", "tx", "lg", "ch", "rec")} for ln in _blank_lines(len(slots), nl)]
+            rec["steps"].append(step)
+        rec["frame_ok"] = all(snapshot_frame(p) == f for p, f in zip(layouts, frames))
+        for k, m in enumerate(layouts[0].lines_iterator()):
+            rec["lines"].append(_line_record([pristine[e][k] for e in range(ne)], [metas[e][k] for e in range(ne)], m, pristine[0][k]["own_conf"]))
+    except BaseException as ex:
+        if isinstance(ex, KeyboardInterrupt):
+            raise
+        rec["outcome"] = "exception:" + type(ex).__name__
+        rec["lines"] = _blank_lines(ne, nl)
     return rec
 
 
@@ -262,7 +435,22 @@ def cases_of(c, rng):
         allc = rng.sample(allc, c["cap"])
         complete = False
     cases = [{"kind": "engines", "assign": a, "vseed": rng.randrange(10 ** 6)} for a in allc]
+    if c.get("scale"):
+        # a sample of the same level assignments once more over character tables of 300 .. 70 000 symbols / lines of up to 1 100
+        # characters (every shape of SCALE_SHAPES in turn: the shape is vseed mod their number)
+        ns = len(SCALE_SHAPES)
+        cases += [{"kind": "scale", "assign": a, "vseed": rng.randrange(10 ** 5) * ns + i % ns}
+                  for i, a in enumerate(rng.sample(allc, min(len(allc), c["scale"])))]
     return cases, complete
+
+
+def chain_cases(c, rng):
+    """every level assignment of the TLC run (Chain = TRUE) as a chain of calls on one long-lived result layout"""
+    per_engine = list(itertools.product(c["levels"], repeat=c["NLines"]))
+    allc = list(itertools.product(per_engine, repeat=c["NEngines"]))
+    plans = c["plans"]
+    return [{"kind": "chain", "assign": a, "vseed": rng.randrange(10 ** 6), "plan": pl}
+            for i, a in enumerate(allc) for pl in (plans if plans != "one" else [i % 3])]
 
 
 def execute(c, cases):
@@ -277,6 +465,10 @@ def execute(c, cases):
         force_align(np.array([[0.0, 1.0], [1.0, 0.0], [0.0, 1.0]]), [0], 1)
     except Exception:
         pass
+    if any(cs["kind"] == "scale" for cs in cases):          # build the large tables once, before forking
+        for nsym in sorted({n for n, _ in SCALE_SHAPES}):
+            _TABSET["name"] = ("scale", nsym)
+            _tables()
     return pmap(_merge_case, cases, procs=6)
 
 
@@ -286,25 +478,37 @@ def tconsts(c, strict):
     return k
 
 
-def judge(ctx, c, traces):
+def judge(ctx, c, traces, drift=True):
     acc, rej = ctx.validate("EngineMerge_Trace", traces, constants=tconsts(c, False), shards=min(6, max(1, len(traces) // 300)),
                             label="EngineMerge_Trace " + _lab(c))
     # drift level: the same executions with the exact-rational expectation of the realised confidences
     bad = {i for i, _ in rej}
     good = [tr for i, tr in enumerate(traces) if i not in bad]
     before = ctx.traces_validated
-    _, rej2 = ctx.validate("EngineMerge_Trace", good, constants=tconsts(c, True), shards=min(6, max(1, len(good) // 300)),
-                           label="EngineMerge_Trace (exact means, drift only) " + _lab(c))
+    rej2 = []
+    if drift:
+        _, rej2 = ctx.validate("EngineMerge_Trace", good, constants=tconsts(c, True), shards=min(6, max(1, len(good) // 300)),
+                               label="EngineMerge_Trace (exact means, drift only) " + _lab(c))
     ctx.traces_validated = before
     for i, clause in rej2:
         ctx.model_drift("clause %d: %s" % (clause, CLAUSES.get(clause, "?")), 1, {"cfg": _lab(c), "trace": good[i]})
     for tr in traces:
         nt = any(len([v for v in ln["conf"] if v >= 4]) >= 2 for ln in tr["lines"])       # at least two positive engines compete
-        ctx.count(1, (_lab(c), tr["kind"], repr(tr["assign"]), tr["vseed"]) if nt else None)
+        ctx.count(1, (_lab(c), tr["kind"], repr(tr["assign"]), tr["vseed"], tr.get("plan", 0)) if nt else None)
     ctx.sample({"config": _lab(c), "trace": traces[len(traces) // 2]}, limit=5)
     for idx, clause in rej:
         tr = traces[idx]
-        if clause >= 10:
+        if clause >= 1000:
+            st, k = (clause - 1000) // 10, (clause - 1000) % 10
+            step = tr["steps"][st - 1] if 0 < st <= len(tr["steps"]) else {}
+            ln = step["lines"][k - 1] if step and 0 < k <= len(step["lines"]) else {}
+            what = ("long-lived result layout, call %d of plan %s on the layout objects %s (1 = the result; earlier calls: %s), line %d: the "
+                    "merged line does not hold the transcription + logits + character table of the first most confident layout of this call, "
+                    "or the recorded confidence is not that maximum (scale per slot %s; text from slot %s, logits from %s, table from %s, "
+                    "recorded %s, outcome %s)" % (st, tr.get("plan"), step.get("slots"), [x["slots"] for x in tr["steps"][:max(0, st - 1)]], k,
+                                                  ln.get("conf"), ln.get("tx"), ln.get("lg"), ln.get("ch"), ln.get("rec"), step.get("outcome")))
+            sig = "chain-selection"
+        elif clause >= 10:
             k = clause - 10
             ln = tr["lines"][k - 1] if 0 < k <= len(tr["lines"]) else {}
             what = ("line %d: merged line does not hold the transcription + logits + character table of the first most confident engine, "
@@ -313,8 +517,11 @@ def judge(ctx, c, traces):
             sig = "selection"
         else:
             what = CLAUSES.get(clause, "?")
-            sig = {1: "exception", 2: "ids-geometry", 3: "script-confidence", 4: "idempotence"}.get(clause, "clause%d" % clause)
-        ctx.violation({"cfg": c, "case": {"kind": tr["kind"], "assign": tr["assign"], "vseed": tr["vseed"]}, "clause": clause}, sig,
+            sig = {1: "exception", 2: "ids-geometry", 3: "script-confidence", 4: "idempotence", 6: "scale-order"}.get(clause, "clause%d" % clause)
+        if tr["kind"] == "scale":
+            what += "; character tables of %d symbols, %s characters per line" % (tr.get("nsym", 0), tr.get("tlen") or "1-2")
+        cfg = {f: v for f, v in c.items() if f != "chains"}
+        ctx.violation({"cfg": cfg, "case": {f: tr[f] for f in ("kind", "assign", "vseed", "plan") if f in tr}, "clause": clause}, sig,
                       "%s; %s kind=%s levels(16ths, -1 = empty) per engine=%s outcome=%s" % (what, _lab(c), tr["kind"], tr["assign"], tr["outcome"]))
     return acc, rej
 
@@ -322,12 +529,19 @@ def judge(ctx, c, traces):
 def run(ctx):
     ctx.rule = ("every assignment of a confidence level {none, 0, 4/16, 8/16, 12/16} to each (engine, line) = the initial states of the TLC "
                 "run, realised as PageLayouts with exact-weight logits (seeded choice among transformer-style, CTC-style and fallback "
-                "realisations; engines with different character tables), merged by the real merge_layouts; plus self-merges; "
+                "realisations; engines with different character tables), merged by the real merge_layouts; plus self-merges; plus the same "
+                "assignments over character tables of 300 .. 70 000 symbols / lines of up to 1 100 characters; plus (Chain = TRUE) chains of "
+                "calls on one long-lived result layout; "
                 "non-trivial = a line on which at least two engines have positive confidence")
     ctx.assume("levels differ by >= 1/16, far above round-off; exact ties are decided on the floats the script itself computes "
                "(equal floats = tie, first engine must win); mathematically equal levels whose floats differ in the last bit may go either way",
                "when no engine has positive confidence both 'nothing copied' and 'first arg-max copied' are accepted (Appendix D)",
-               "copied logits / character table are compared by content")
+               "copied logits / character table are compared by content",
+               "chains: what a layout object holds when a call is made is measured on fresh line objects with the same transcription, logits "
+               "and character table (the mean character confidence of an engine's line is a function of these, not of the object's past)",
+               "scale: TLC cannot enumerate tables of 300 .. 70 000 symbols; the driver records the exact mean the logits were built for "
+               "(from the row weights alone) and the trace specification compares their ORDER with the engine that was kept (pure "
+               "one-row-per-character lines only)")
     ctx.exhaustive = True
     first = True
     for c in configs(ctx.tier):
@@ -356,6 +570,8 @@ def run(ctx):
                         break
                 return tr
             ctx.selftest_corrupt("EngineMerge_Trace", good, corrupt, constants=tconsts(c, False))
+        for cc in c.get("chains", []):
+            run_chains(ctx, cc, selftest=first)
         first = False
     # self-merge: a result merged with itself (same object and an equal copy)
     c2 = {"NEngines": 2, "NLines": 2, "levels": [NONE, 0, 4, 8, 12], "cap": None}
@@ -365,7 +581,37 @@ def run(ctx):
     judge(ctx, c2, traces)
     ctx.notes["explanation"] = ("TLC exhaustive on EngineMerge per (NEngines, NLines, levels) with invariants %s; every level assignment realised "
                                 "as real layouts and merged by user_scripts/merge_ocr_results.merge_layouts (twice); judged by TLC in "
-                                "EngineMerge_Trace with the design operator Accepts" % INVS)
+                                "EngineMerge_Trace with the design operator Accepts; Chain = TRUE: incremental merging with one long-lived result layout, "
+                                "invariants %s, every call of a chain judged with AcceptsOn" % (INVS, CHAIN_INVS))
+
+
+CHAIN_INVS = ["ChainCorrect", "ChainStepAccepted", "ChainEqualsOneShot", "SameEngine"]
+
+
+def run_chains(ctx, cc, selftest):
+    """history: incremental merging with one long-lived result layout (design Chain = TRUE) + the plans of chain_plan on the real code"""
+    ctx.tlc("EngineMerge", constants=consts_of(cc), invariants=CHAIN_INVS, workers=4, timeout=1800, label="EngineMerge " + _lab(cc))
+    if selftest:
+        small = {"NEngines": 3, "NLines": 1, "levels": [NONE, 0, 4, 8], "chain": True}
+        # a line object scored with what it held originally: wrong from the second call on ...
+        ctx.tlc("EngineMerge", constants=consts_of(small, "stale_conf"), invariants=CHAIN_INVS, workers=2, timeout=600, coverage=False,
+                expect_violation="ChainCorrect", label="EngineMerge selftest chain Mut=stale_conf")
+    traces = execute(cc, chain_cases(cc, ctx.rng))
+    # (the realisations and their exact means are those of the other kinds: no drift-level pass here)
+    acc, rej = judge(ctx, cc, traces, drift=False)
+    if selftest and not rej:
+        def won(tr):
+            return [st for st in tr["steps"] if len(st["slots"]) == 2 and st["slots"][0] == 1
+                    and any(ln["conf"][1] >= 4 and ln["conf"][1] > ln["conf"][0] for ln in st["lines"])]
+        good = next((tr for tr in traces if won(tr)), None)
+        if good is not None:
+            def corrupt(tr):
+                for ln in won(tr)[0]["lines"]:
+                    if ln["conf"][1] >= 4 and ln["conf"][1] > ln["conf"][0]:
+                        ln["lg"] = [1]          # the result kept its own logits although the engine handed over in this call won
+                        break
+                return tr
+            ctx.selftest_corrupt("EngineMerge_Trace", good, corrupt, constants=tconsts(cc, False))
 
 
 def replay(ctx, case):
